@@ -221,6 +221,12 @@ def verify_contract(qn, timeout_ms, only_variant=None):
                                 o2["source"] = "concrete witness of the contract's witness list (the counter-model's opaque parts could not be rebuilt)"
                                 rec["replay"] = o2
                                 break
+                    if isinstance(rec.get("replay"), dict):
+                        # ghost constants of the family member (clauses may name them): needed again by ./check --replay
+                        gc = {k: sh.value for k, sh in variant.items() if isinstance(sh, _Const) and k.startswith("_")
+                              and isinstance(sh.value, (bool, int, str, type(None)))}
+                        if gc:
+                            rec["replay"]["ghost_consts"] = gc
                     rec["variant"] = {k: repr(v)[:100] for k, v in variant.items()}
                     if (ob.info or {}).get("no_invariant") and not (rec.get("replay") or {}).get("reproduced"):
                         rec["status"] = "unknown"
@@ -331,6 +337,22 @@ def _decode_any(program, v):
     if name in ("VList", "VTuple"):
         items = [_decode_any(program, x) for x in _seq_terms(v.arg(0))]
         return items if name == "VList" else tuple(items)
+    if name == "VObj":
+        # an object value of a program class (elements of TupleOf(elem_cls), ObjVal): rebuilt without running __init__; a field
+        # the solver left arbitrary and that cannot be rebuilt becomes None - the replay on the real code decides, not the model
+        cls = program.classes_by_id.get(v.arg(0).as_long())
+        names = getattr(program, "_inst_attrs", {}).get(cls)
+        fields = _seq_terms(v.arg(1))
+        if cls is None or names is None or len(fields) != len(names):
+            raise ValueError(f"cannot decode {v}")
+        o = object.__new__(cls)
+        for n, ft in zip(names, fields):
+            try:
+                val = _decode_any(program, ft)
+            except ValueError:
+                val = None
+            object.__setattr__(o, n, val)
+        return o
     if name == "VDict":
         ks = [_decode_any(program, x) for x in _seq_terms(v.arg(0))]
         vs = [_decode_any(program, x) for x in _seq_terms(v.arg(1))]
@@ -422,6 +444,9 @@ def replay_model(program, con, f, node, pyvals):
         named[node.args.vararg.arg] = tuple(pyvals.get("*" + node.args.vararg.arg, ()))
     if node.args.kwarg is not None:
         named[node.args.kwarg.arg] = kwargs
+    for k, v in pyvals.items():             # ghost constants of a family member (names start with "_")
+        if k.startswith("_") and k not in named:
+            named[k] = v
 
     def clause(fn, extra=None):
         env = dict(named)
@@ -874,6 +899,7 @@ def replay_obligation(rec):
         con, f = contracts[qn], program.resolve(qn)
         node = program.node_of(f)
         values = {k: dec(v) for k, v in rp["object_args_terms"].items()}
+        values.update(rp.get("ghost_consts") or {})
         out = replay_objects(program, con, f, node, values)
         print(f"  call: {out['call']}\n  observed: {out.get('observed')}\n  required: {out.get('required')}\n  "
               f"{'REPRODUCED' if out.get('reproduced') else 'holds on this tree'}")
@@ -892,6 +918,7 @@ def replay_obligation(rec):
         pyvals["*" + node.args.vararg.arg] = tuple(args[len(pos):])
     if node.args.kwarg is not None:
         pyvals["**" + node.args.kwarg.arg] = kwargs
+    pyvals.update(rp.get("ghost_consts") or {})
     out = replay_model(program, con, f, node, pyvals)
     print(f"  call: {out['call']}\n  observed: {out.get('observed')}\n  required: {out.get('required')}\n  "
           f"{'REPRODUCED' if out['reproduced'] else 'holds on this tree'}")
